@@ -68,11 +68,14 @@ def _module_consts(mod):
     return env
 
 
+_TEXT_FUNCS = {"_tw.dedent": textwrap.dedent, "textwrap.dedent": textwrap.dedent}
+
+
 def env_eval(node, env):
     try:
-        return fin.ev(node, env)
+        return fin.ev(node, env, _TEXT_FUNCS)
     except fin.NotFinite:
-        return eval_str(node, env)
+        return eval_str(node, env, _TEXT_FUNCS)
 
 
 def expand_exec_for(mod, for_node: ast.For, consts: dict, scope_cls: ast.ClassDef | None = None):
